@@ -74,7 +74,8 @@ def run_tlc(module, cfg, *, workers=None, env=None, extra=(), timeout=3600, tag=
   shutil.rmtree(meta, ignore_errors=True)
   os.makedirs(meta, exist_ok=True)
   cfgp = cfg if os.path.isabs(cfg) else os.path.join(MC, cfg)
-  cmd = ["java", "-Xss64m", "-XX:+UseParallelGC", "-XX:ParallelGCThreads=%d" % (2 if (workers or NCPU) == 1 else 8), "-Xmx" + heap, "-DTLA-Library=" + SPEC]
+  cmd = ["java", "-Xss64m", "-XX:+UseParallelGC", "-XX:ParallelGCThreads=%d" % (2 if (workers or NCPU) == 1 else 8), "-Xmx" + heap, "-DTLA-Library=" + SPEC,
+         "-Djava.io.tmpdir=" + meta]      # TLC's and SANY's temporary files stay in the run's own directory, not in /tmp
   if deque:
     cmd.append("-Dtlc2.tool.queue.IStateQueue=StateDeque")
   cmd += ["-cp", TLA_CP, "tlc2.TLC", "-metadir", meta, "-noGenerateSpecTE",
